@@ -317,9 +317,35 @@ def _max(x, *a, **k):
     return _np.max(x, *a, **k)
 
 
+def _symbolic_arg(x, depth=0):
+    from . import apoly
+    if isinstance(x, (Z, C, SymInt, SymBool, apoly.P)):
+        return True
+    if type(x).__name__ in ('Tensor', 'NDArray') or type.__instancecheck__(ndarray, x):
+        return True
+    if isinstance(x, _np.ndarray) and x.dtype == object:
+        return True
+    if depth < 2 and isinstance(x, (list, tuple)):
+        return any(_symbolic_arg(v, depth + 1) for v in x)
+    return False
+
+
+def _guarded(name, f):
+    def g(*a, **k):
+        if any(_symbolic_arg(v) for v in a) or any(_symbolic_arg(v) for v in k.values()):
+            unsupported('numpy.%s on symbolic data is not modelled' % name)
+        return f(*a, **k)
+    g.__name__ = name
+    return g
+
+
 class _Facade(types.ModuleType):
     def __getattr__(self, name):
-        return getattr(_np, name)
+        v = getattr(_np, name)
+        if callable(v) and not isinstance(v, type):
+            # a real numpy function applied to symbolic data would answer about the wrapper objects, not about the values
+            return _guarded(name, v)
+        return v
 
 
 facade = _Facade('numpy')
@@ -335,5 +361,25 @@ facade.sum = _sum
 facade.array = _array
 facade.asarray = _array
 facade.isscalar = _isscalar
+
+
+def _iscomplexobj(x):
+    if isinstance(x, (C, complex, _np.complexfloating)):
+        return True
+    dt = getattr(x, 'tdtype', None) or getattr(x, 'dtype', None)
+    if dt is not None and hasattr(dt, 'is_complex'):
+        return bool(dt.is_complex)
+    if isinstance(x, (Z, SymInt, int, float)):
+        return False
+    if _symbolic_arg(x):
+        from . import apoly
+        if isinstance(x, apoly.P):
+            return False
+        unsupported('numpy.iscomplexobj on this symbolic object')
+    return bool(_np.iscomplexobj(x))
+
+
+facade.iscomplexobj = _iscomplexobj
+facade.iscomplex = lambda x: unsupported('numpy.iscomplex') if _symbolic_arg(x) else _np.iscomplex(x)
 facade.max = _max
 facade.__version__ = _np.__version__
